@@ -344,6 +344,79 @@ func ruleCOPY1(c *Ctx) {
 		c.check(n > 0 && len(badElems) == 0, tname+".Copy/elements-copied", fd, fmt.Sprintf("%d element store(s), each the result of elem.Copy()", n),
 			"Copy of "+tname+" stores elements that are not copies (shares nested mutable state): "+strings.Join(badElems, "; "))
 	}
+	// (d) cells: a field holding pointers to mutable cells of the module
+	// (structs with an Object-typed field, e.g. the captured-variable cells of a
+	// closure) copied shallowly shares those cells between the copy and the
+	// original - Clone() of a script whose globals hold closures then shares
+	// their captured variables between clones
+	cellType := func(t types.Type) string {
+		var elem types.Type
+		switch u := t.Underlying().(type) {
+		case *types.Slice:
+			elem = u.Elem()
+		case *types.Map:
+			elem = u.Elem()
+		case *types.Pointer:
+			elem = t
+		}
+		ptr, ok := elem.(*types.Pointer)
+		if !ok {
+			return ""
+		}
+		nm, ok := ptr.Elem().(*types.Named)
+		if !ok || nm.Obj().Pkg() != w.Root.Types {
+			return ""
+		}
+		st, ok := nm.Underlying().(*types.Struct)
+		if !ok {
+			return ""
+		}
+		for i := 0; i < st.NumFields(); i++ {
+			ft := st.Field(i).Type()
+			if pt, ok := ft.(*types.Pointer); ok {
+				ft = pt.Elem()
+			}
+			if _, isNamedStruct := ft.Underlying().(*types.Struct); !isNamedStruct && types.IsInterface(ft) {
+				return nm.Obj().Name()
+			}
+		}
+		return ""
+	}
+	for _, tname := range sortedKeys(cp) {
+		fd := cp[tname]
+		recv := recvName(fd)
+		ast.Inspect(fd.Body, func(nd ast.Node) bool {
+			kv, ok := nd.(*ast.KeyValueExpr)
+			if !ok {
+				return true
+			}
+			kid, ok := kv.Key.(*ast.Ident)
+			if !ok {
+				return true
+			}
+			fld, _ := w.Root.TypesInfo.Uses[kid].(*types.Var)
+			if fld == nil || !fld.IsField() {
+				return true
+			}
+			cell := cellType(fld.Type())
+			if cell == "" {
+				return true
+			}
+			// value: recv.F, or append(<anything>, recv.F...)
+			shallow := false
+			v := ast.Unparen(kv.Value)
+			if call, ok := v.(*ast.CallExpr); ok && IsBuiltinCall(w.Root, call, "append") && call.Ellipsis.IsValid() && len(call.Args) == 2 {
+				v = ast.Unparen(call.Args[1])
+			}
+			if se, ok := v.(*ast.SelectorExpr); ok {
+				if id, ok := ast.Unparen(se.X).(*ast.Ident); ok && id.Name == recv {
+					shallow = true
+				}
+			}
+			c.check(!shallow, "copy-shares/"+tname+"."+fld.Name(), kv, "cells are copied", fmt.Sprintf("%s.Copy keeps the same *%s cells in field %s: the copy and the original share mutable state (for a closure: its captured variables), so clones made by Compiled.Clone after a run are not independent", tname, cell, fld.Name()))
+			return true
+		})
+	}
 }
 
 // IMM.3: freeze builds fresh storage and never writes through its argument.
@@ -461,6 +534,53 @@ func ruleIMM3(c *Ctx) {
 			c.check(good, fmt.Sprintf("freeze/element-frozen/%s#%d", w.ctxKey(as.Pos()), k), as, "element stored is the frozen form of the original element", "freeze stores an element that is not the result of freezing it ("+w.Src(as)+"): not everything reachable from the result is immutable")
 			return true
 		})
+	}
+	// coverage: freeze descends into every value type that holds other values
+	// (an exported field Value of type Object, []Object or map[string]Object)
+	holders := map[string]bool{}
+	for _, name := range w.Root.Types.Scope().Names() {
+		tn, ok := w.Root.Types.Scope().Lookup(name).(*types.TypeName)
+		if !ok {
+			continue
+		}
+		st, ok := tn.Type().Underlying().(*types.Struct)
+		if !ok {
+			continue
+		}
+		for i := 0; i < st.NumFields(); i++ {
+			f := st.Field(i)
+			if f.Name() != "Value" {
+				continue
+			}
+			switch u := f.Type().Underlying().(type) {
+			case *types.Slice:
+				holders[name] = types.IsInterface(u.Elem())
+			case *types.Map:
+				holders[name] = types.IsInterface(u.Elem())
+			case *types.Interface:
+				holders[name] = true
+			}
+		}
+	}
+	covered := map[string]bool{}
+	for _, fd := range fns {
+		ast.Inspect(fd.Body, func(n ast.Node) bool {
+			if cc, ok := n.(*ast.CaseClause); ok {
+				for _, e := range cc.List {
+					if tv, ok := w.Root.TypesInfo.Types[e]; ok && tv.IsType() {
+						tn, _ := namedName(tv.Type)
+						covered[tn] = true
+					}
+				}
+			}
+			return true
+		})
+	}
+	for _, h := range sortedKeys(holders) {
+		if !holders[h] {
+			continue
+		}
+		c.check(covered[h], "freeze/covers/"+h, entry, "freeze has an arm for "+h, "freeze has no arm for "+h+", a value type that holds other values: a mutable container inside it stays mutable although it is reachable from the frozen result")
 	}
 	c.check(lits >= 4, "freeze/constructions", entry, fmt.Sprintf("%d immutable constructions examined in %v", lits, sortedKeys(names)), fmt.Sprintf("expected >=4 immutable constructions in freeze, found %d", lits))
 }
